@@ -75,16 +75,14 @@ func MergeContexts(ctx1, ctx2 context.Context) (context.Context, context.CancelC
 	if ctx2 == bgContext {
 		return ctx1, noop
 	}
-	ctx, cancel := context.WithCancelCause(context.Background())
-	go func() {
-		select {
-		case <-ctx1.Done():
-			cancel(ctx1.Err())
-		case <-ctx2.Done():
-			cancel(ctx2.Err())
-		}
-	}()
-	return ctx, cancel
+	ctx, cancel := context.WithCancelCause(ctx1)
+	stop := context.AfterFunc(ctx2, func() {
+		cancel(ctx2.Err())
+	})
+	return ctx, func(cause error) {
+		stop()
+		cancel(cause)
+	}
 }
 
 // AppliesToAny returns true if any of the biPredicates evaluate to true for the values.
